@@ -418,7 +418,7 @@ SIF = "dynamics/integration_events/scheduled_impulse.py"
 V("c01-impulse-not-terminal", "C01", "violation", "C01.R8", edits=[("dynamics/integration_events/discrete_state_change_event.py", "    terminal = True\n", "    terminal = False\n")])
 V("c01-impulse-in-position-slots", "C01", "violation", "C01.R8", edits=[(SIF, "        self.thrust = concatenate((zeros(3), delta_v))", "        self.thrust = concatenate((delta_v, zeros(3)))")])
 V("c01-impulse-time-from-end", "C01", "violation", "C01.R8", edits=[("data/events/scheduled_impulse.py", "        start_jd = JulianDate(self.start_time_jd)", "        start_jd = JulianDate(self.end_time_jd + 1.0 / 86400.0)")])
-V("c01-impulse-applied-twice", "C01", "violation", "C01.R8", edits=[(CLF, "                    current_state += event.getStateChange(current_time, current_state[:, 0])[\n                        :,\n                        None,\n                    ]\n", "                    current_state += 2 * event.getStateChange(current_time, current_state[:, 0])[\n                        :,\n                        None,\n                    ]\n")])
+V("c01-impulse-applied-twice", "C01", "violation", "C01.R8", edits=[(CLF, "                current_state += event.getStateChange(current_time, current_state[:, 0])[\n", "                current_state += 2 * event.getStateChange(current_time, current_state[:, 0])[\n")])
 V("c01-removal-kinds-swapped", "C01", "violation", "C01.R8", edits=[("data/events/agent_removal.py", "        if self.agent_type == self.AgentType.TARGET.value:\n            scope_instance.removeTarget(self.agent_id, self.tasking_engine_id)", "        if self.agent_type == self.AgentType.SENSOR.value:\n            scope_instance.removeTarget(self.agent_id, self.tasking_engine_id)")])
 V("c01-added-target-no-estimate", "C01", "violation", "C01.R8", edits=[(SC, "        self._estimate_agents[target_spec.id] = estimate_agent\n", "")])
 V("c01-ntw-impulse-not-rotated", "C01", "violation", "C01.R8", edits=[(SIF, "        return ntw2eci(state, self.thrust)", "        return self.thrust")])
@@ -480,3 +480,5 @@ _CCT = "def _cct(delta, stability, information, sensor):\n    stab = sign(stabil
 V("c07-n-reward-helper", "C07", "pass", edits=[(RWF, "class CostConstrainedReward(", _CCT), (RWF, "        return self._delta * (sign(stability) + information) - (1 - self._delta) * sensor\n", "        return _cct(self._delta, stability, information, sensor)\n")])
 V("c07-reward-helper-gate-instead-of-sign", "C07", "violation", "C07.R5", edits=[(RWF, "class CostConstrainedReward(", _CCT.replace("sign(stability)", "stability > 0.0")), (RWF, "        return self._delta * (sign(stability) + information) - (1 - self._delta) * sensor\n", "        return _cct(self._delta, stability, information, sensor)\n")])
 V("c07-normalisation-global-guard", "C07", "violation", "C07.R5", edits=[("tasking/rewards/reward_base.py", "        for met in range(len(self.metrics)):\n            if metric_matrix[..., met].max() > 0.0:\n                metric_matrix[..., met] /= metric_matrix[..., met].max()\n", "        peaks = metric_matrix.reshape(-1, len(self.metrics)).max(axis=0)\n        if (peaks > 0.0).all():\n            metric_matrix /= peaks\n")])
+V("c01-revert-F17-simultaneous-events", "C01", "violation", "C01.R8", revert="d10d320")
+V("c15-n-revert-F17-leaves-c15-quiet", "C15", "pass", revert="d10d320", note="the pre-F17 shape of _applyEvents is not a C15 violation")
